@@ -15,5 +15,5 @@ else
 fi
 rc=$?
 git -C /repo checkout -- .
-echo "SEED $ID property=$PROP only=${ONLY:-all} rc=$rc $(grep -c '^VIOLATION' /tmp/eval_$ID.$PROP.log) violation line(s)"
-grep "^VIOLATION\|^INCONCLUSIVE\|^OK" /tmp/eval_$ID.$PROP.log | cut -c1-260 | head -5
+echo "SEED $ID property=$PROP only=${ONLY:-all} rc=$rc violations=$(grep -c '^VIOLATION' /tmp/eval_$ID.$PROP.log) solver_counterexamples=$(grep -c '^SOLVER-COUNTEREXAMPLE' /tmp/eval_$ID.$PROP.log)"
+grep "^VIOLATION\|^SOLVER-COUNTEREXAMPLE\|^INCONCLUSIVE\|^OK" /tmp/eval_$ID.$PROP.log | cut -c1-220 | head -4
